@@ -362,7 +362,9 @@ class BuiltinsBase:
                 except UnicodeDecodeError:
                     self.ip.panic(True, "str slice not on a char boundary")
                     return S("")
-            raise Unsupported("symbolic str slice")
+            if self.ip.dead() or not self.ip.feasible():
+                return S("")
+            raise Unsupported("symbolic str slice %r [%r..%r]" % (v, lo, hi))
         if isinstance(v.n, int) and lo.conc() and hi.conc():
             if not (0 <= lo.v <= hi.v <= v.n):
                 self.ip.panic(True, "slice out of bounds")
